@@ -171,7 +171,10 @@ def setup_event(sc):
                           dxt=[[int(v) for v in row[i0:i1]] for row in (sc.get("dxarr") or [[sc["dx"]] * sc["imax"]] * sc["jmax"])[j0:j1]],
                           dyt=[[int(v) for v in row[i0:i1]] for row in (sc.get("dyarr") or [[sc["dy"]] * sc["imax"]] * sc["jmax"])[j0:j1]],
                           mask=[row[i0:i1] for row in M[j0:j1]]),
-                kill=sc["kill"], freeze=sc.get("freeze", []), killfarm=sc.get("killfarm", []), out=dict(ops=sc["ops"], numrec=sc["numrec"], sparse=sc["layout"] == "sparse", pvars=sc["pvars"]),
+                kill=sc["kill"], freeze=sc.get("freeze", []), killfarm=sc.get("killfarm", []), out=dict(ops=sc["ops"], numrec=sc["numrec"], sparse=sc["layout"] == "sparse", pvars=sc["pvars"],
+                         proto=list(os.path.splitext(sc.get("outname", "out.nc"))[0])),
+                scal=dict(has=bool(sc["hasscal"]), N=int(sc["N"]),
+                          frames=[((t - sc["start"]) // sc["dt"]) * (-1 if sc["rev"] else 1) for t in sc["ftimes"]]),
                 warm=bool(sc.get("warm")), vert=bool(sc.get("vert") or sc.get("wfield")), token=sc.get("token", 0),
                 **({"init": sc["warm"]["init"], "warmidx": sc["warm"]["idx"]} if sc.get("warm") else {}))
 
@@ -256,12 +259,26 @@ def _abs_time(var, values):
     return out, ref
 
 
-def decode_files(work, sc, pattern="out*.nc"):
+def output_files(work, sc, pattern=None):
+    """the output files of a run, whatever they are called: every *.nc of the work directory that is not an input"""
+    if pattern:
+        names = glob.glob(os.path.join(work, pattern))
+    else:
+        inputs = set((sc.get("extra_files") or {}).keys())
+        names = [fn for fn in glob.glob(os.path.join(work, "*.nc")) if not os.path.basename(fn).startswith("f_") and os.path.basename(fn) not in inputs]
+
+    def key(fn):
+        m = re.search(r"_(\d+)\.nc$", fn)
+        return (int(m.group(1)) if m else -1, fn)
+    return sorted(names, key=key)
+
+
+def decode_files(work, sc, pattern=None):
     import numpy as np
     from netCDF4 import Dataset
     files = []
     ivars = ["age", "farm"] + (["temp"] if sc["hasscal"] else []) + (["lon", "lat"] if sc.get("lonlat_out") else [])
-    for fn in sorted(glob.glob(os.path.join(work, pattern))):
+    for fn in output_files(work, sc, pattern):
         m = re.search(r"_(\d+)\.nc$", fn)
         with Dataset(fn) as d:
             tv, ref = _abs_time(d.variables["time"], d.variables["time"][:])
@@ -365,7 +382,7 @@ def run_e2e(sc):
         ev += list(R.EVENTS)
         R.reset()
         if crashed and crashed.startswith("SystemExit") and not any(e["ev"] == "timer" for e in ev):
-            ev.append(dict(ev="refused", what=crashed, nfiles=len(glob.glob(os.path.join(work, "out*.nc")))))
+            ev.append(dict(ev="refused", what=crashed, nfiles=len(output_files(work, sc))))
         elif crashed:
             ev.append(dict(ev="crash", what=crashed))
         else:
@@ -373,7 +390,7 @@ def run_e2e(sc):
         keep = sc.get("keep_output")
         if keep:
             os.makedirs(keep, exist_ok=True)
-            for fn in glob.glob(os.path.join(work, "out*.nc")):
+            for fn in output_files(work, sc):
                 shutil.copy(fn, keep)
     finally:
         import gc
